@@ -12,6 +12,7 @@ import (
 	"bwverif/gram"
 	"bwverif/rt"
 
+	"github.com/google/badwolf/bql/grammar"
 	"github.com/google/badwolf/bql/lexer"
 	"github.com/google/badwolf/storage"
 	"github.com/google/badwolf/storage/memoization"
@@ -255,6 +256,22 @@ func c08Truncations(r *rt.Rec, rng *rand.Rand, n int) {
 	}
 }
 
+// c08Sentences: statements derived at random from the grammar table itself
+// (every shape the grammar admits, whether or not the semantic layer or the
+// planner make sense of it), rendered with the vocabulary of the stores.
+func c08Sentences(r *rt.Rec, rng *rand.Rand, n int) {
+	g := gram.Load(grammar.BQL())
+	_, ma := g.MinLens()
+	for i := 0; i < n; i++ {
+		t := g.RandomTree(rng, "START", 0, 4+rng.Intn(6), ma, 0.2+0.6*rng.Float64())
+		text := gram.Render(g.Tokens(t), gram.DefaultChooser(rng))
+		sg := c08Exec(r, text, rng.Intn(3))
+		if sg >= bq.StagePlan {
+			r.Nontrivial(text)
+		}
+	}
+}
+
 func c08Random(r *rt.Rec, rng *rand.Rand, n int) {
 	words := []string{"select", "from", "where", "{", "}", ";", "?a", "?g1", "/u<a>", `"p"@[]`, `"5"^^type:int64`, ".", ",", "insert", "data", "into", "group", "by", "having", "limit", "(", ")", "count", "as", "optional", "filter", "latest", "between", "2016-01-01T00:00:00Z", "\"", "<", ">", "="}
 	for i := 0; i < n; i++ {
@@ -290,14 +307,14 @@ func init() {
 	register(&rt.Check{
 		ID:    "C08",
 		Level: "exploration",
-		Rule: "statement texts against an empty store, a populated memory store and the populated store wrapped in the memoizer: (a) every token sequence up to length L over the 55 token kinds rendered to text (L=2 quick, 3 thorough; complete), (b) generated statements of all eight kinds (vocabulary hitting and missing the data, LIMIT 0/1/-1/2^63-1/float/text, aggregates over empty patterns, bindings reused across S/P/O/ID/TYPE/AT positions, OPTIONAL, bounds), (b2) statements that go wrong only while rows are processed: aggregates (sum / count / count distinct) over columns mixing numeric literals with nodes, text, predicates and NULL in both FROM orders, CONSTRUCT / DECONSTRUCT over satisfiable patterns with exactly one ill-kinded binding in one template slot (first or later pair), lists that repeat a name (ORDER BY / GROUP BY keys, projections, graphs) with aliases on every projection, bindings left NULL by an OPTIONAL clause reused as subject / predicate / object / anchor / bound limit and in HAVING, ORDER BY, GROUP BY, aggregates and templates, (b3) every prefix of a statement that ends right after a token, two statements in one text, a statement followed by stray tokens, (c) character- and token-level mutations of (b), (d) random bytes, random UTF-8 and random keyword salad; a sample also under -race; " +
+		Rule: "statement texts against an empty store, a populated memory store and the populated store wrapped in the memoizer: (a) every token sequence up to length L over the 55 token kinds rendered to text (L=2 quick, 3 thorough; complete), (b) generated statements of all eight kinds (vocabulary hitting and missing the data, LIMIT 0/1/-1/2^63-1/float/text, aggregates over empty patterns, bindings reused across S/P/O/ID/TYPE/AT positions, OPTIONAL, bounds), (b2) statements that go wrong only while rows are processed: aggregates (sum / count / count distinct) over columns mixing numeric literals with nodes, text, predicates and NULL in both FROM orders, CONSTRUCT / DECONSTRUCT over satisfiable patterns with exactly one ill-kinded binding in one template slot (first or later pair), lists that repeat a name (ORDER BY / GROUP BY keys, projections, graphs) with aliases on every projection, bindings left NULL by an OPTIONAL clause reused as subject / predicate / object / anchor / bound limit and in HAVING, ORDER BY, GROUP BY, aggregates and templates, (b3) every prefix of a statement that ends right after a token, two statements in one text, a statement followed by stray tokens, (b4) sentences derived at random from the grammar table, (c) character- and token-level mutations of (b), (d) random bytes, random UTF-8 and random keyword salad; a sample also under -race; " +
 			"monitor per statement, in a journaling worker process: recover() in the calling goroutine, process exit (panic in an engine goroutine, fatal error, log.Fatal), all-goroutines-blocked and hard watchdog, goroutine-leak snapshot after return, table-xor-error; non-trivial = reached Execute (parsed and planned) or was rejected after >=3 tokens; distinct by text",
 		Assume: []string{"termination is restated as bounded progress (hard watchdog 120 s per batch, cases take milliseconds)", "a goroutine counts as started on behalf of the call if it was created by badwolf code after the pre-call snapshot"},
 		Floor:  500,
 		Phases: func(tier string, seed int64) []rt.Phase {
-			maxLen, g, m, rn, rc, itc, trn := 2, 3000, 3000, 2000, 240, 40, 4
+			maxLen, g, m, rn, rc, itc, trn, sn := 2, 3000, 3000, 2000, 240, 40, 4, 4000
 			if tier == "thorough" {
-				maxLen, g, m, rn, rc, itc, trn = 3, 50000, 50000, 50000, 6000, 600, 60
+				maxLen, g, m, rn, rc, itc, trn, sn = 3, 50000, 50000, 50000, 6000, 600, 60, 60000
 			}
 			kinds := gram.AllKinds()
 			per := 60
@@ -306,6 +323,7 @@ func init() {
 				{Name: "generated", N: g / per, Run: func(i int, r *rt.Rec) { c08Generated(r, gen.Rng(seed, "c08g", i), per, false) }},
 				{Name: "mutated", N: m / per, Run: func(i int, r *rt.Rec) { c08Generated(r, gen.Rng(seed, "c08m", i), per, true) }},
 				{Name: "runtime-typed", N: 16, Run: func(i int, r *rt.Rec) { c08RuntimeTyped(r, gen.Rng(seed, "c08t", i), i, 16, itc) }},
+				{Name: "sentences", N: 16, Run: func(i int, r *rt.Rec) { c08Sentences(r, gen.Rng(seed, "c08s", i), sn/16) }},
 				{Name: "truncations", N: 16, Run: func(i int, r *rt.Rec) { c08Truncations(r, gen.Rng(seed, "c08u", i), trn) }},
 				{Name: "random", N: rn / per, Run: func(i int, r *rt.Rec) { c08Random(r, gen.Rng(seed, "c08r", i), per) }},
 				{Name: "race-sample", N: rc / per, Race: true, Run: func(i int, r *rt.Rec) { c08Generated(r, gen.Rng(seed, "c08x", i), per, i%2 == 1) }},
